@@ -23,6 +23,7 @@ CONFIGS = {
     "float_half": ("float", float, 0.5),
     "int_m1": ("int", int, -1),
     "int_0": ("int", int, 0),
+    "int_m1f": ("int", int, -1.0),      # integer labels with a float-typed integral sentinel
     "int_nan": ("int", int, NAN),
     "str_nan": ("str", "<U3", "nan"),
     "str_empty": ("str", "<U3", ""),
